@@ -64,7 +64,9 @@ Print Assumptions C08_warm_output_machine.
     simulation has its own clock starting at the restart time (steps counted from there), constructs the
     forcing module afresh from the same files (new step tables, pre-step interpolation towards the next frame
     — C03's machine started in the middle of a bracket, in the middle of a file, forward or reversed),
-    constructs the releaser with warm = true from the same table, and restores the particles and the pid
+    constructs the releaser with warm = true from the same table (in the set-up's release mode [s_cont]:
+    discrete, or continuous — discretize() from the first file time again, ticks up to the restart time
+    dropped), and restores the particles and the pid
     counter from the record of step r.  For every well-formed set-up and every restart step r at which a
     record is due: the uninterrupted run's records are [before ++ rec_r :: rest], and the restarted run, with
     its record steps relabelled by +r, did not fail, holds the same particles (row, pid, liveness, values up to
@@ -96,6 +98,22 @@ Example C08_closed_ex :
   setup_ok s = true /\ dir_ok (s_tk s) = true /\ s_due s r = true /\ s_nsteps s = 6 /\ np = 3 /\
   s_tk (warm_setup s r) = {| start := 2400; stop := 0; dt := 600; ref := 0; rev := true |} /\
   show_run restarted = [(2, [(0, 0, (21 # 8)%Q, 4, 20%Q); (1, 1, (45 # 8)%Q, 2, 20%Q); (2, 1, (45 # 8)%Q, 2, 20%Q)])] /\
+  show_run (relabel pv Z r restarted) = skipn 2 (show_run (m_run s)).
+Proof. vm_compute. repeat split. Qed.
+
+(** non-vacuity, continuous release: [ex_setup_cont] (release every 1200 s) restarted after its record of
+    step 2 — the warm releaser skips the tick at the restart time (already released) and releases the rows
+    of file time 2400 at its own step 2 *)
+Example C08_closed_cont_ex :
+  let s := ex_setup_cont in let r := 2 in
+  let step := sim_step pv Z (m_release s) (m_force s) s_cache (m_track s) (ibm s) (s_due s) in
+  let before := fold_left step (zrange 0 r) (sim_init pv Z) in
+  let rec_r := snapshot pv r (after_release pv Z (m_release s) (m_force s) before false r) in
+  let np := npid before + Z.of_nat (length (m_release s r)) in
+  let restarted := m_warm_run (warm_setup s r) (relabel_rec pv (- r) rec_r) np in
+  s_cont s = Some 1200 /\ setup_ok s = true /\ dir_ok (s_tk s) = true /\ s_due s r = true /\ s_nsteps s = 6 /\ np = 2 /\
+  s_tk (warm_setup s r) = {| start := 1200; stop := 3600; dt := 600; ref := 0; rev := false |} /\
+  map (fun x : rec pv => (rstep x, length (rrows x))) (recs restarted) = [(2, 5%nat)] /\
   show_run (relabel pv Z r restarted) = skipn 2 (show_run (m_run s)).
 Proof. vm_compute. repeat split. Qed.
 
